@@ -15,6 +15,7 @@ spec = importlib.util.spec_from_loader("checkmod", l); m = importlib.util.module
 sys.argv = ["check"]; l.exec_module(m)
 N = int(sys.argv[1]) if len(sys.argv) > 1 else 30
 CHECKS = int(sys.argv[2]) if len(sys.argv) > 2 else 150
+ONLY = sys.argv[3] if len(sys.argv) > 3 else None  # optional: only tests whose name contains this
 work = os.path.join(V, ".work", "determinism-%d" % os.getpid())
 shutil.rmtree(work, ignore_errors=True)
 ov = m.prepare(work, "/repo")
@@ -25,7 +26,7 @@ for prop, spec_ in sorted(table.items()):
         if c.get("race"):
             continue
         key = (prop, c["world"], c["test"])
-        if key in seen:
+        if key in seen or (ONLY and ONLY not in c["test"]):
             continue
         seen.add(key)
         bk = (c["world"], bool(c.get("yield")))
